@@ -186,6 +186,51 @@ func gen(r *rand.Rand, id int, seed, tipUnix int64, long bool, nmis int, pick []
 	return h
 }
 
+// genLifecycle: "a candidate leaves, then the sync peer leaves".  P1 completes
+// its handshake first and becomes the sync peer; P2 (honest behaviour, same
+// chain) and then the honest node H become sync candidates, in this order;
+// further misbehaving nodes come after H.  P2 goes away for good while it is
+// not the sync peer, later P1 goes away for good.  The client has to pick a
+// LIVE candidate and converge on H's chain.  With p1 = "silent-headers" the
+// client is still at the genesis block when P1 leaves.
+func genLifecycle(r *rand.Rand, id int, seed, tipUnix int64, p1 string, nextra int) Hist {
+	h := Hist{}
+	h.ID, h.Seed, h.TipUnix = id, seed, tipUnix
+	h.ChainLen = 120 + 40*r.Intn(4)
+	first := misList[idx(p1)].mk(r, h.ChainLen)
+	p2 := ns.NodeSpec{Chain: "main"}
+	p2.B.HandshakeDelayMs = 350 + r.Intn(100)
+	hn := ns.NodeSpec{Chain: "main"}
+	hn.B.HandshakeDelayMs = 750 + r.Intn(100)
+	h.Nodes = []ns.NodeSpec{first, p2, hn}
+	h.Kinds = []string{p1, "candidate-leaves-then-sync-peer", "honest-at-3"}
+	for k := 0; k < nextra; k++ {
+		var m mis
+		for {
+			m = misList[r.Intn(len(misList))]
+			if m.long || strings.HasPrefix(m.name, "silent") || m.name == "filter-liar-unprovable" || m.name == "lighter-fork" {
+				continue
+			}
+			break
+		}
+		n := m.mk(r, h.ChainLen)
+		n.B.HandshakeDelayMs = 1100 + 100*k
+		h.Nodes = append(h.Nodes, n)
+		h.Kinds = append(h.Kinds, m.name)
+	}
+	t2 := 1500 + r.Intn(400)
+	t1 := t2 + 700 + r.Intn(600)
+	h.Events = []ns.Event{{AtMs: t2, Kind: "leave", Node: 2}, {AtMs: t1, Kind: "leave", Node: 1}}
+	if r.Intn(2) == 0 {
+		h.Events = append(h.Events, ns.Event{AtMs: t1 + 300 + r.Intn(500), Kind: "extend", N: 1 + r.Intn(3)})
+	}
+	h.DeadlineMs = 45000
+	h.StopWhenConverged = true
+	h.MinRunMs = t1 + 1500
+	h.GrowEveryMs, h.GrowCount = 20000, 2
+	return h
+}
+
 func idx(name string) int {
 	for i, m := range misList {
 		if m.name == name {
@@ -228,26 +273,39 @@ func caseTerm(h *Hist) string {
 	}
 	// root-cause observables: a node that never answers getheaders; the
 	// header tip and the honest node's ban flag at the last sample
-	silentHdr, honest := false, -1
+	silentHdr, silentConn, lighter, honest := false, false, false, -1
+	leaves := map[int]bool{}
+	for _, e := range h.Events {
+		if e.Kind == "leave" {
+			leaves[e.Node-1] = true
+		}
+	}
 	for i, n := range h.Nodes {
 		for _, x := range n.B.Silent {
 			if x == "getheaders" {
 				silentHdr = true
+				if i < len(res.Final.Connected) && res.Final.Connected[i] {
+					silentConn = true
+				}
 			}
 		}
-		if honest < 0 && n.Chain == "main" && reflect.DeepEqual(n.B, ns.Behaviour{}) {
+		if n.Chain == "lighter" {
+			lighter = true
+		}
+		// the honest node: follows the main chain, default behaviour (a
+		// handshake delay only fixes the connection order), stays
+		plain := n.B
+		plain.HandshakeDelayMs = 0
+		if honest < 0 && n.Chain == "main" && !leaves[i] && reflect.DeepEqual(plain, ns.Behaviour{}) {
 			honest = i
 		}
 	}
 	honestBanned := honest >= 0 && honest < len(res.Final.Banned) && res.Final.Banned[honest]
-	return fmt.Sprintf("(%d, mkNCase %d %s %s\n  %s\n  %s %s %s %s %s %d)", h.ID, h.ChainLen, c.Bool(h.GrowCount > 0), c.List(lies),
-		c.List(samples), c.List(valid), c.Bool(res.Converged), c.Bool(silentHdr), c.Z(int64(res.Final.HdrTip)), c.Bool(honestBanned), res.FinalTip)
+	return fmt.Sprintf("(%d, mkNCase %d %s %s\n  %s\n  %s %s %s %s %s %d %s %s)", h.ID, h.ChainLen, c.Bool(h.GrowCount > 0), c.List(lies),
+		c.List(samples), c.List(valid), c.Bool(res.Converged), c.Bool(silentHdr), c.Z(int64(res.Final.HdrTip)), c.Bool(honestBanned), res.FinalTip,
+		c.Bool(silentConn), c.Bool(lighter))
 }
 
-// bestBlockTable ties the model's best_block (coq/C04/Spec.v) to the real
-// ChainService.BestBlock: a ChainService skeleton on real header stores with
-// block-header tip n and filter-header tip f <= n; rows (n, f, reported
-// height or -1, height of the header whose hash was reported or -1).
 func bestBlockTable(out string) []string {
 	var rows []string
 	dir, err := os.MkdirTemp(out, "bb")
@@ -307,12 +365,21 @@ func main() {
 		up := gen(c.Rng(a.Seed, 905), 5, a.Seed, tip, false, 1, []int{idx("filter-liar-unprovable")})
 		up.DeadlineMs, up.GrowCount = 30000, 1
 		hs = append(hs, up)
+		// a sync candidate leaves, then the (silent) sync peer leaves: the
+		// client must not pick the dead candidate (seeded change C04-2)
+		hs = append(hs, genLifecycle(c.Rng(a.Seed, 906), 6, a.Seed, tip, "silent-headers", 0))
 		n, nlong := 8, 1
 		if a.Tier == "thorough" {
 			n, nlong = 130, 16
 		}
 		for i := 0; i < n; i++ {
 			r := c.Rng(a.Seed, i)
+			if i >= nlong && i%4 == 3 {
+				// peer-lifecycle orders: every fourth random scenario
+				p1 := []string{"silent-headers", "silent-headers", "silent-all", "disconnecting", "hdr-wrongprev", "no-cf-bit"}[r.Intn(6)]
+				hs = append(hs, genLifecycle(r, 100+i, a.Seed, tip, p1, r.Intn(2)))
+				continue
+			}
 			hs = append(hs, gen(r, 100+i, a.Seed, tip, i < nlong, r.Intn(4), nil))
 		}
 	}
